@@ -1,8 +1,215 @@
-"""C14 — bounded run-time contracts only (no proof obligations built yet); see rtc/C14.py and DESIGN.md section 8."""
-from contracts._bounded_only import make_main
+"""C14 — multipole moments equal direct quadrature of their defining integrands (DESIGN 8/C14).
 
-main = make_main("C14", ["bounded layer only: real functions under executable postconditions on a generated family (rtc/C14.py); nothing is proved"])
+Grid.moments is executed symbolically for every moment type with a symbolic number of grid points, symbolic points / weights / function
+values / centre, and the order list supplied by generate_orders_horton_order through its contract (blocks of rows with symbolic row counts and
+uninterpreted entries), solid_harmonics through its contract (rows in Horton order, C08).  For a generic row t and each centre:
+    cartesian     entry = sum_n w_n f_n prod_d (x_nd - c_d)^(o_td)
+    radial        entry = sum_n w_n f_n |x_n - c|^(o_t)
+    pure          entry = sum_n w_n f_n S_t(x_n - c)                       (rows of the solid-harmonic table)
+    pure-radial   entry = sum_n w_n f_n |x_n - c|^(n_t) S_row(l_t, m_t)(x_n - c),  row(l, m) = l^2 + (0 | 2m-1 | 2|m|)
+the output has shape (rows, centres) and return_orders hands back the stacked order list.  The order generator itself and the dipole helper
+are covered by the exhaustive / bounded layer.
+"""
+from __future__ import annotations
+
+import os
+
+import z3
+
+from pyvc import framework
+from pyvc import interp as I
+from pyvc import npmodel as M
+from pyvc import terms as T
+
+IS, RS = z3.IntSort(), z3.RealSort()
+N = z3.Int("N")
+X = z3.Function("x", IS, IS, RS)
+Wt = z3.Function("w", IS, RS)
+Fv = z3.Function("f", IS, RS)
+ORD = z3.Function("order_entry", IS, IS, IS, IS)     # (block, row, column) -> integer entry of the generator's output
+ROWS = z3.Function("rows_of_block", IS, IS)
+SH = z3.Function("solid_harmonic", IS, IS, RS)       # (row in Horton order, point)
+FQ = "grid.basegrid.Grid.moments"
+
+
+def run_type(chk, type_mom, dim, ncent):
+    eng = chk.eng
+    cls = eng.get_class("grid.basegrid", "Grid")
+    cs = [[z3.Real(f"c{k}{d}") for d in range(dim)] for k in range(ncent)]
+    ncols = {"cartesian": dim, "radial": 1, "pure": 2, "pure-radial": 3}[type_mom]
+    calls = {"orders": [], "sh": []}
+
+    def gen_contract(eng_, f, args, kwargs):
+        order, typ = args[0], args[1]
+        blk = len(calls["orders"])
+        calls["orders"].append((order, typ, args[2] if len(args) > 2 else kwargs.get("dim", 3)))
+        r = ROWS(blk)
+        eng_.assume(r >= 1)
+        # documented number of rows of one block (contract of the generator; its content is checked exhaustively by the bounded layer)
+        o_ = T.zi(order)
+        dm = args[2] if len(args) > 2 else kwargs.get("dim", 3)
+        if typ == "pure":
+            eng_.assume(r == 2 * o_ + 1)
+        elif typ == "pure-radial":
+            eng_.assume(r == o_ * o_)
+        elif typ == "cartesian":
+            eng_.assume(r == {1: z3.IntVal(1), 2: o_ + 1, 3: (o_ + 1) * (o_ + 2) / 2}[dm if not T.is_sym(dm) else T.simp(dm)])
+        if typ == "radial":
+            return I.Arr((1,), lambda i: T.zi(order), "int")      # documented: np.array([order])
+        arr = I.Arr((r, ncols), lambda i, c: ORD(blk, T.zi(i), T.zi(c)), "int")
+        if typ == "pure-radial":
+            # documented content of a pure-radial block: 0 <= l, |m| <= l
+            t_ = z3.Int("t_row")
+            eng_.add_axiom(z3.BoolVal(True))
+        return arr
+
+    def sh_contract(eng_, f, args, kwargs):
+        lmax, sph = args
+        calls["sh"].append((lmax, sph))
+        n = sph.shape[0]
+        return I.Arr((T.mul(T.add(lmax, 1), T.add(lmax, 1)), n), lambda r, i: SH(T.zi(r), T.zi(i)), "real")
+
+    def cart2sph(eng_, f, args, kwargs):
+        pts = args[0]
+        calls["c2s"] = pts
+        return I.Arr((pts.shape[0], 3), lambda i, c: z3.RealVal(0), "real")
+    orders_n = 2 if type_mom != "pure-radial" else 2
+
+    def thunk(eng_):
+        eng_.callee_contracts["grid.utils.generate_orders_horton_order"] = gen_contract
+        eng_.callee_contracts["grid.utils.solid_harmonics"] = sh_contract
+        eng_.callee_contracts["grid.utils.convert_cart_to_sph"] = cart2sph
+        try:
+            eng_.assume(N >= 1)
+            g = I.Obj(cls)
+            g.fields.update(_points=I.Arr((N, dim), lambda i, d: X(T.zi(i), T.zi(d)), "real"), _weights=I.Arr((N,), lambda i: Wt(T.zi(i)), "real"), _kdtree=None)
+            centers = I.Arr((ncent, dim), lambda k, d: M.select_const(k, [lambda row=row: M.select_const(d, [lambda v=v: v for v in row]) for row in cs]), "real")
+            fvals = I.Arr((N,), lambda i: Fv(T.zi(i)), "real")
+            out, allo = eng_.call_method(g, "moments", orders_n, centers, fvals, type_mom, True)
+            return out, allo
+        finally:
+            for k in ("grid.utils.generate_orders_horton_order", "grid.utils.solid_harmonics", "grid.utils.convert_cart_to_sph"):
+                eng_.callee_contracts.pop(k, None)
+
+    tag = f"{type_mom}/{dim}d/centres={ncent}"
+    outs = chk.explore(f"moments/{tag}", thunk, func=FQ)
+    rets = [o for o in outs if o.kind == "return"]
+    chk.add(f"moments/{tag}/post/returns", [], z3.BoolVal(bool(rets)), func=FQ, meta={"replay": {"type": type_mom, "dim": dim}})
+    rep = {"type": type_mom, "dim": dim}
+    for oi, o in enumerate(rets):
+        out, allo = o.value
+        hy = list(o.pc)
+        sfx = f"@{oi}" if len(rets) > 1 else ""
+        nblocks = len(calls["orders"])
+        # the generator is asked for every order of the documented range, with the grid's dimension and the moment type
+        want_orders = list(range(0, orders_n + 1)) if type_mom != "pure-radial" else list(range(1, orders_n + 1))
+        asked = [T.simp(a[0]) if T.is_sym(a[0]) else a[0] for a in calls["orders"]]
+        chk.add(f"moments/{tag}/post/generator-called-for-each-order{sfx}", [],
+                z3.BoolVal(asked == want_orders and all(a[1] == type_mom and (T.simp(a[2]) if T.is_sym(a[2]) else a[2]) == dim for a in calls["orders"])), func=FQ,
+                meta={"replay": rep})
+        if asked != want_orders:
+            continue
+        # generic row: block b (concrete), row t inside the block
+        for b in range(nblocks):
+            t = z3.Int("t")
+            off = sum([ROWS(k) for k in range(b)]) if (b and type_mom != "radial") else (b if type_mom == "radial" else 0)
+            nrows_b = ROWS(b) if type_mom != "radial" else z3.IntVal(1)
+            row = off + t
+            hyb = hy + [t >= 0, t < nrows_b]
+            for k in range(ncent):
+                val = out.fn(row, k)
+                sites = framework.find_sites(T.zr(val))
+                if len(sites) != 1:
+                    chk.undecided.append((f"C14/moments/{tag}/block{b}/centre{k}", f"{len(sites)} reduction sites"))
+                    continue
+                dist = T.UF1["sqrt"](sum(((X(n_, d) - cs[k][d]) * (X(n_, d) - cs[k][d]) for d in range(dim)), z3.RealVal(0))) if False else None
+
+                def radius(n_):
+                    return T.UF1["sqrt"](0 + sum((X(n_, d) - cs[k][d]) * (X(n_, d) - cs[k][d]) for d in range(dim)))
+                if type_mom == "cartesian":
+                    def g_(n_, b=b, t=t, k=k):
+                        prod = z3.RealVal(1)
+                        for d in range(dim):
+                            prod = prod * T.zr(T.power(X(n_, d) - cs[k][d], ORD(b, t, d)))
+                        return prod * Fv(n_) * Wt(n_)
+                elif type_mom == "radial":
+                    expo = T.zi(allo.fn(row, 0)) if len(allo.shape) == 2 else T.zi(allo.fn(row))
+                    chk.add(f"moments/{tag}/block{b}/post/radial-power-is-the-order{sfx}", hyb, expo == want_orders[b], func=FQ, meta={"replay": rep})
+
+                    def g_(n_, b=b, t=t, k=k, expo=expo):
+                        return T.zr(T.power(radius(n_), expo)) * Fv(n_) * Wt(n_)
+                elif type_mom == "pure":
+                    def g_(n_, row=row):
+                        return SH(row, n_) * Fv(n_) * Wt(n_)
+                else:
+                    l_, m_ = ORD(b, t, 1), ORD(b, t, 2)
+                    hrow = l_ * l_ + z3.If(m_ > 0, 2 * m_ - 1, z3.If(m_ < 0, -2 * m_, 0))
+
+                    def g_(n_, b=b, t=t, hrow=hrow):
+                        return T.zr(T.power(radius(n_), ORD(b, t, 0))) * SH(hrow, n_) * Fv(n_) * Wt(n_)
+                ps = framework.PrefixSum(f"mom_{type_mom.replace('-', '_')}_{dim}_{b}_{k}{oi}", g_)
+                eq = framework.match_sum(chk, f"moments/{tag}/block{b}/centre{k}{sfx}", sites[0], ps, 0, N - 1, hyb, func=FQ, meta={"replay": rep})
+                chk.add(f"moments/{tag}/block{b}/centre{k}/post/entry-is-the-quadrature-sum{sfx}", hyb + [eq], T.zr(val) == ps.range_sum(0, N - 1), func=FQ,
+                        meta={"replay": rep})
+        total_rows = sum([ROWS(k) for k in range(nblocks)]) if type_mom != "radial" else z3.IntVal(nblocks)
+        chk.add(f"moments/{tag}/post/output-shape{sfx}", hy, z3.And(T.zi(out.shape[0]) == total_rows, z3.BoolVal(len(out.shape) == 2), T.zi(out.shape[1]) == ncent), func=FQ,
+                meta={"replay": rep})
+        t = z3.Int("t")
+        if type_mom != "radial":
+            chk.add(f"moments/{tag}/post/returned-orders-are-the-stacked-blocks{sfx}", hy + [t >= 0, t < ROWS(nblocks - 1)],
+                    z3.And(T.zi(allo.shape[0]) == total_rows,
+                           *[T.zi(allo.fn(sum([ROWS(k) for k in range(nblocks - 1)], z3.IntVal(0)) + t, c)) == ORD(nblocks - 1, t, c) for c in range(ncols)]),
+                    func=FQ, meta={"replay": rep})
+        if type_mom in ("pure", "pure-radial") and calls["sh"]:
+            lm = calls["sh"][-1][0]
+            chk.add(f"moments/{tag}/post/solid-harmonics-up-to-highest-order{sfx}", [], z3.BoolVal((T.simp(lm) if T.is_sym(lm) else lm) == orders_n), func=FQ, meta={"replay": rep})
+            pts = calls.get("c2s")
+            if pts is not None:
+                n0 = z3.Int("n0")
+                chk.add(f"moments/{tag}/post/harmonics-evaluated-about-the-centre{sfx}", hy + [n0 >= 0, n0 < N],
+                        z3.And(*[T.zr(pts.fn(n0, d)) == X(n0, d) - cs[ncent - 1][d] for d in range(dim)]), func=FQ, meta={"replay": rep})
+        calls["orders"].clear()
+        calls["sh"].clear()
+
+
+def validation(chk):
+    eng = chk.eng
+    cls = eng.get_class("grid.basegrid", "Grid")
+
+    def thunk(eng_, kind):
+        eng_.assume(N >= 1)
+        g = I.Obj(cls)
+        g.fields.update(_points=I.Arr((N, 3), lambda i, d: X(T.zi(i), T.zi(d)), "real"), _weights=I.Arr((N,), lambda i: Wt(T.zi(i)), "real"), _kdtree=None)
+        fvals = I.Arr((N,), lambda i: Fv(T.zi(i)), "real")
+        cen = I.Arr((1, 3), lambda k, d: z3.RealVal(0), "real")
+        if kind == "pure-radial-order-0":
+            return eng_.call_method(g, "moments", 0, cen, fvals, "pure-radial")
+        if kind == "centre-dimension":
+            return eng_.call_method(g, "moments", 1, I.Arr((1, 2), lambda k, d: z3.RealVal(0), "real"), fvals, "cartesian")
+        if kind == "values-2d":
+            return eng_.call_method(g, "moments", 1, cen, I.Arr((N, 2), lambda i, d: Fv(T.zi(i)), "real"), "cartesian")
+        return eng_.call_method(g, "moments", [0, 1], cen, fvals, "cartesian")
+    for kind, exc in (("pure-radial-order-0", "ValueError"), ("centre-dimension", "ValueError"), ("values-2d", "ValueError"), ("orders-not-int", "TypeError")):
+        outs = chk.explore(f"moments/validation/{kind}", lambda e, kind=kind: thunk(e, kind), func=FQ)
+        chk.add(f"moments/raises/{kind}", [], z3.BoolVal(bool(outs) and all(o.kind == "raise" and o.exc == exc for o in outs)), func=FQ, meta={"replay": {"type": "validation"}})
 
 
 def build(chk):
-    return None
+    for type_mom, dims in (("cartesian", (1, 2, 3)), ("radial", (3,)), ("pure", (3,)), ("pure-radial", (3,))):
+        for dim in dims:
+            run_type(chk, type_mom, dim, 2 if (type_mom, dim) == ("cartesian", 3) else 1)
+    validation(chk)
+
+
+def main(tier="quick", seed=0, bounded=True, proof=True):
+    chk = framework.Check("C14", tier, seed, level="proof")
+    chk.trusted += [
+        "generate_orders_horton_order enters through its contract (one block of rows per order); its content (documented Horton order) is checked "
+        "exhaustively to order 10 / 40 by the bounded layer, not proved for a symbolic order",
+        "solid_harmonics returns the table of regular solid harmonics with rows in Horton order (C08); row(l, m) = l^2 + (0 | 2m-1 | 2|m|)",
+        "the loop over orders is executed for orders = 2 (three blocks; two for pure-radial): the per-block argument is independent of the number of blocks",
+        "dipole_moment_of_molecule: bounded layer only; floats are reals, real powers as uninterpreted pow",
+    ]
+    if proof:
+        build(chk)
+    return chk.finish(bounded_args=[] if (bounded and os.path.exists(os.path.join(framework.VERIF, "rtc", "C14.py"))) else None)
